@@ -166,7 +166,7 @@ theorem C06_unselected_counterexample :
                            ("run", .dict [("zz9", .int 1)])]) [.key "run", .key "zz9"] = .unselected := by
   refine ⟨rfl, rfl⟩
 
-private def clsSpec : Fields := [("alpha", .classArg true [("m.Sub", [("beta", leafI)])])]
+private def clsSpec : Fields := [("alpha", .classArg true none [("m.Sub", [("beta", leafI)])])]
 
 /-- keys below `dict_kwargs` of a class specification are not looked at (open finding C06-dict-kwargs) -/
 theorem C06_dict_kwargs_counterexample :
@@ -183,12 +183,30 @@ theorem C06_scalar_for_group_counterexample (whole : Bool) :
     validate ld0 [("grp", .group whole [("beta", leafI)])] [("grp", .int 3)] = .ok () := by
   cases whole <;> rfl
 
+private def impSpec (imp : Option String) : Fields :=
+  [("m", .classArg false imp [("m.Base", [("a", leafI)]), ("m.Sub", [("c", leafI)])])]
+
+/-- class specifications WITHOUT `class_path` (a concrete base type supplies it): `{init_args: ..}` and the bare `init_args`
+    mapping are accepted; a foreign key NEXT TO `init_args`, or inside the bare mapping, is the unknown-key error at that key;
+    with an abstract base (no implicit class) such values are refused -/
+theorem C06_implicit_class_examples :
+    validate ld0 (impSpec (some "m.Base")) [("m", .dict [("init_args", .dict [("a", .int 2)])])] = .ok ()
+    ∧ validate ld0 (impSpec (some "m.Base")) [("m", .dict [("init_args", .dict [("a", .int 2)]), ("lerning_rate", .int 1)])]
+        = .error (.unknown [.key "m", .key "lerning_rate"] 1)
+    ∧ validate ld0 (impSpec (some "m.Base")) [("m", .dict [("dict_kwargs", .dict []), ("init_arg", .int 1)])]
+        = .error (.unknown [.key "m", .key "init_arg"] 1)
+    ∧ validate ld0 (impSpec (some "m.Base")) [("m", .dict [("a", .int 2)])] = .ok ()
+    ∧ validate ld0 (impSpec (some "m.Base")) [("m", .dict [("a", .int 2), ("zz9", .int 1)])]
+        = .error (.unknown [.key "m", .key "zz9"] 1)
+    ∧ validate ld0 (impSpec none) [("m", .dict [("init_args", .dict [("a", .int 2)])])] = .error (.type [.key "m"] 0) := by
+  refine ⟨rfl, rfl, rfl, rfl, rfl, rfl⟩
+
 /-! ### non-vacuity: the hypotheses are satisfiable by non-trivial states -/
 
 private def bigSpec : Fields :=
   [("n", .leaf .int true none),
    ("d", .group false [("a", .leaf .int true none), ("b", .leaf .str false (some (.str "s")))]),
-   ("m", .classArg true [("m.A", [("x", .leaf .int true none), ("y", .leaf .int false (some (.int 2))),
+   ("m", .classArg true none [("m.A", [("x", .leaf .int true none), ("y", .leaf .int false (some (.int 2))),
                                    ("dc", .group true [("p", .leaf .int true none)])])]),
    ("ld", .listOf false (.group true [("p", .leaf .int true none)])),
    ("subcommand", .subcommands true [("s1", [("k", .leaf .int true none)]), ("s2", [("j", .leaf .int false none)])])]
